@@ -200,6 +200,14 @@ func c08History(t *vk.T, proto string, n, th, rep int, env vk.Env) {
 				return
 			}
 			oldSec := secretsOf(old)
+			// copies made with the library's own Clone() before the refresh must stay what they were
+			var tapClones map[party.ID]*frost.TaprootConfig
+			if tm, ok := cur.(*fx.TaprootMat); ok {
+				tapClones = map[party.ID]*frost.TaprootConfig{}
+				for id, c := range tm.Cfgs {
+					tapClones[id] = c.Clone()
+				}
+			}
 			nw, err := cur.Refresh(r, opt())
 			if err != nil {
 				t.Violation(proto+"|refresh-failed", "%s: %v", tag, err)
@@ -208,6 +216,14 @@ func c08History(t *vk.T, proto string, n, th, rep int, env vk.Env) {
 			refreshes++
 			t.Obs("evaluations", 1)
 			t.Obs("refreshes|"+proto, 1)
+			for id, c := range tapClones {
+				cs := fx.ShareOfTaproot(c)
+				t.Obs("clones_compared_after_refresh", 1)
+				if o, ok := oldSec[string(id)]; ok && (cs.Secret == nil || o.Cmp(cs.Secret) != 0) {
+					t.Violation(proto+"|clone-follows-refresh", "%s: a Clone() of %q's configuration taken before the refresh no longer holds the pre-refresh share afterwards", tag, id)
+					return
+				}
+			}
 			shares := nw.Shares()
 			f, subsets := fx.CheckMaterial(r, shares, &key, 60)
 			t.Obs("reconstruction_subsets_checked", int64(subsets))
